@@ -1124,3 +1124,39 @@ impl Expr {{
                         'std::fmt::Formatter -> shim that appends to a String (write_str / write_char)'],
                        'core::fmt (to_string through the real Display machinery does not terminate in CBMC)')
     return dict(functions=[r], dropped=[d])
+
+
+# --------------------------------------------------------------------------------------------------
+# Searcher::get_column_expr_value / negate_value on shim types (C15)
+# --------------------------------------------------------------------------------------------------
+def unit_colvalue(inj, scratch):
+    frag_begin(inj)
+    s = src('src/searcher.rs', scratch)
+    it = s.fn('get_column_expr_value', impl='Searcher')
+    body = dedent(s.text[it['open']:it['end']])
+    try:
+        it2 = s.fn('negate_value', impl='Searcher')
+        neg = dedent(s.text[it2['open']:it2['end']])
+        negfn = f'    fn negate_value(value: Variant) -> Variant {neg}\n'
+    except AnchorLost:
+        negfn = ''
+    text = f'''pub mod colvalue {{
+{H('frag_colvalue_prelude.rs')}
+impl Searcher {{
+    // ---- verbatim: body of Searcher::get_column_expr_value ----
+    pub fn get_column_expr_value(&mut self, entry: Option<&DirEntry>, file_info: &Option<FileInfo>, file_map: &mut HashMap<String, String>,
+                                 buffer_data: Option<&Vec<HashMap<String, String>>>, column_expr: &Expr) -> Variant {body}
+    // ---- verbatim: body of Searcher::negate_value (when present) ----
+{negfn}
+}}
+{H('frag_colvalue.kani.rs')}
+}}
+'''
+    inj.new_file(FRAG_FILE, text)
+    r, d = frag_record('colvalue::Searcher::get_column_expr_value (+ negate_value)', 'src/searcher.rs',
+                       'impl Searcher / fn get_column_expr_value and fn negate_value (whole bodies, verbatim, as methods of a shim Searcher)',
+                       body + negfn, body + negfn,
+                       ['Searcher, DirEntry, FileInfo, Expr, Variant, HashMap, ArithmeticOp -> shim types with the same member names: get_field_value / '
+                        'get_function_value return preset values, HashMap is an association list, calc records its operands'],
+                       'get_field_value, get_function_value, Display for Expr (verified separately as C15.display.*), ArithmeticOp::calc (C15.calc.table)')
+    return dict(functions=[r], dropped=[d])
